@@ -310,6 +310,26 @@ def oracle_psf(n, grid, opd, inten, p):
     if np.all(opd == 0) and np.all(inten == inten[0]) and inten[0] != 0:
         if abs(s - 1) > 1e-9 or abs(psf.max() - 100) > 1e-7:
             return dict(base, kind='unaberrated-peak-not-100', strehl=s, peak=float(psf.max()))
+    # every pixel, on the REQUESTED grid: 100 |DFT_g(P)|^2 / (sum |P|)^2 with the DFT written out as a matrix product (no np.fft),
+    # the pupil rebuilt here from the wavefront data (row-major samples inside the unit circle), zero frequency at pixel g//2
+    if grid <= 128 and np.all(np.isfinite(opd)) and np.all(np.isfinite(inten)) and inten.sum() > 0:
+        xs_ = np.linspace(-1, 1, n)
+        X_, Y_ = np.meshgrid(xs_, xs_)
+        msk = (X_ ** 2 + Y_ ** 2) <= 1
+        if int(msk.sum()) == len(inten):
+            P_ = np.zeros((n, n), dtype=complex)
+            P_[msk] = inten * np.exp(2j * np.pi * opd)
+            k_ = np.arange(grid)
+            Wm = np.exp(-2j * np.pi * np.outer(k_, np.arange(n)) / grid)          # zero padding = only the first n columns matter
+            D_ = np.abs(Wm @ P_ @ Wm.T) ** 2 / inten.sum() ** 2 * 100
+            ix = (k_ - grid // 2) % grid
+            D_ = D_[np.ix_(ix, ix)]
+            dev = float(np.max(np.abs(psf - D_)))
+            if dev > 1e-7 * (1 + float(D_.max())):
+                i_, j_ = np.unravel_index(int(np.argmax(np.abs(psf - D_))), psf.shape)
+                return dict(base, kind='psf-vs-direct-dft', site='FFTPSF._compute_psf', max_abs_diff=dev, at=[int(i_), int(j_)],
+                            observed=float(psf[i_, j_]), expected=float(D_[i_, j_]), energy=float(psf.sum()), energy_expected=float(D_.sum()),
+                            centre_agrees=bool(abs(psf[grid // 2, grid // 2] - D_[grid // 2, grid // 2]) <= 1e-7 * (1 + D_.max())))
     # normalisation: with pupil amplitudes A_j (the per-sample weights the wavefront data carry) and phases 2 pi opd_j the centre
     # pixel is 100 |sum A e^{i phi}|^2 / (sum A)^2 -- with A, not A^2 -- and the unaberrated pupil of the same A peaks at 100
     if np.all(np.isfinite(opd)) and np.all(np.isfinite(inten)) and inten.sum() > 0 and np.all(inten >= 0):
@@ -1439,7 +1459,7 @@ def search(ctx, broken, disagreements):
         ctx.c11_oracle_evals += 1
         for w in ws:
             found.setdefault((w['kind'], w.get('site')), w)
-    for (n, grid) in [(16, 32), (16, 33), (17, 32), (17, 33), (24, 64), (32, 64)] + ([(64, 256), (33, 128)] if not ctx.quick() else []):
+    for (n, grid) in [(16, 32), (16, 33), (17, 32), (17, 33), (16, 34), (15, 37), (24, 64), (32, 64)] + ([(64, 256), (33, 128)] if not ctx.quick() else []):
         try:
             add(oracle_lens(paraboloid(), n, grid, perfect=True, name='paraboloid'))
             add(oracle_lens(paraboloid(clip=7.0), n, grid, name='paraboloid-clipped'))
